@@ -81,6 +81,13 @@ func (p *termProfile) Run(s *Sim) {
 	p.e.Opts.FeatureGates.NodeRepair = p.repair
 	if p.repair {
 		p.e.CP.Repair = []cloudprovider.RepairPolicy{{ConditionType: "BadNode", ConditionStatus: corev1.ConditionTrue, TolerationDuration: time.Duration(5+ch.Pick("term.toleration", 25)) * time.Minute}}
+		// providers declare several policies with different tolerations (e.g. Ready 30m, accelerator 10m), in any order
+		switch ch.Pick("term.policies", 3) {
+		case 1:
+			p.e.CP.Repair = append(p.e.CP.Repair, cloudprovider.RepairPolicy{ConditionType: "BadDevice", ConditionStatus: corev1.ConditionTrue, TolerationDuration: time.Duration(1+ch.Pick("term.toleration2", 8)) * time.Minute})
+		case 2:
+			p.e.CP.Repair = append([]cloudprovider.RepairPolicy{{ConditionType: "BadDevice", ConditionStatus: corev1.ConditionTrue, TolerationDuration: time.Duration(1+ch.Pick("term.toleration2", 8)) * time.Minute}}, p.e.CP.Repair...)
+		}
 	}
 	p.e.CP.Catalog = GenCatalog(ch, CatalogSpec{Types: 4, Zones: []string{"zone-a", "zone-b"}, Spot: true})
 	p.e.CP.ListLag = true
@@ -327,17 +334,21 @@ func (p *termProfile) op() {
 	case 9: // node goes NotReady / unhealthy condition
 		if o := pick(gvkNode, st.List(gvkNode)); o != nil {
 			bad := p.repair && ch.Pick("term.bad", 2) == 0
+			ctype := corev1.NodeConditionType("BadNode")
+			if bad && len(p.e.CP.Repair) > 1 {
+				ctype = p.e.CP.Repair[ch.Pick("term.badtype", len(p.e.CP.Repair))].ConditionType
+			}
 			st.Mutate(gvkNode, keyOf(o), func(o client.Object) {
 				n := o.(*corev1.Node)
 				if bad {
 					have := false
 					for _, c := range n.Status.Conditions {
-						if c.Type == "BadNode" {
+						if c.Type == ctype {
 							have = true
 						}
 					}
 					if !have {
-						n.Status.Conditions = append(n.Status.Conditions, corev1.NodeCondition{Type: "BadNode", Status: corev1.ConditionTrue, LastTransitionTime: st.now()})
+						n.Status.Conditions = append(n.Status.Conditions, corev1.NodeCondition{Type: ctype, Status: corev1.ConditionTrue, LastTransitionTime: st.now()})
 					}
 				} else {
 					setNodeReady(n, false, st.now())
